@@ -210,6 +210,11 @@ class Model:
                 for t in node.targets:
                     if isinstance(t, ast.Name):
                         mod.constants[t.id] = node.value
+                    elif isinstance(t, (ast.Tuple, ast.List)) and all(isinstance(x, ast.Name) for x in t.elts):
+                        # A, B = <sequence>: each name is the element at its position
+                        for i, x in enumerate(t.elts):
+                            sub = ast.Subscript(value=node.value, slice=ast.Constant(value=i), ctx=ast.Load())
+                            mod.constants[x.id] = ast.fix_missing_locations(ast.copy_location(sub, node))
             elif isinstance(node, ast.AnnAssign) and isinstance(node.target, ast.Name):
                 if node.value is not None:
                     mod.constants[node.target.id] = node.value
@@ -393,9 +398,102 @@ class Model:
         self._const_cache[key] = v
         return v
 
-    def fold(self, mod: ModuleInfo, e: ast.expr):
+    def fold(self, mod: ModuleInfo, e: ast.expr, env: dict | None = None):
+        """Value of a module-level constant expression built from literals, other constants, displays,
+        comprehensions over those and a few pure builtins (dict / zip / tuple / ...).  Nothing of the analysed
+        package is executed: the expression is evaluated over its syntax tree."""
+        if env:
+            return self._fold_env(mod, e, env)
+        return self._fold(mod, e)
+
+    def _fold_env(self, mod, e, env):
+        saved = getattr(self, "_fold_locals", None)
+        self._fold_locals = env
+        try:
+            return self._fold(mod, e)
+        finally:
+            self._fold_locals = saved
+
+    def _fold_comp(self, mod, e):
+        """Rows of a comprehension: list of environments, one per produced element."""
+        base = dict(getattr(self, "_fold_locals", None) or {})
+        envs = [base]
+        budget = [20000]
+        for g in e.generators:
+            if getattr(g, "is_async", 0):
+                raise AnalysisError("cannot fold async comprehension")
+            nxt = []
+            for env in envs:
+                it = self._fold_env(mod, g.iter, env) if env else self._fold(mod, g.iter)
+                if isinstance(it, dict):
+                    it = list(it)
+                if not isinstance(it, (list, tuple, str, set, frozenset)):
+                    raise AnalysisError("cannot fold comprehension source")
+                for item in (sorted(it) if isinstance(it, (set, frozenset)) else it):
+                    budget[0] -= 1
+                    if budget[0] < 0:
+                        raise AnalysisError("comprehension too large to fold")
+                    env2 = dict(env)
+                    self._fold_bind(g.target, item, env2)
+                    if all(self._fold_env(mod, c, env2) for c in g.ifs):
+                        nxt.append(env2)
+            envs = nxt
+        return envs
+
+    def _fold_bind(self, target, value, env) -> None:
+        if isinstance(target, ast.Name):
+            env[target.id] = value
+        elif isinstance(target, (ast.Tuple, ast.List)) and isinstance(value, (tuple, list)) and len(value) == len(target.elts) and not any(isinstance(t, ast.Starred) for t in target.elts):
+            for t, v in zip(target.elts, value):
+                self._fold_bind(t, v, env)
+        else:
+            raise AnalysisError("cannot fold comprehension target")
+
+    def _fold(self, mod: ModuleInfo, e: ast.expr):
+        fold_locals = getattr(self, "_fold_locals", None)
         if isinstance(e, ast.Constant):
             return e.value
+        if isinstance(e, ast.Name) and fold_locals and e.id in fold_locals:
+            return fold_locals[e.id]
+        if isinstance(e, (ast.GeneratorExp, ast.ListComp)):
+            return [self._fold_env(mod, e.elt, env) if env else self._fold(mod, e.elt) for env in self._fold_comp(mod, e)]
+        if isinstance(e, ast.SetComp):
+            return {self._fold_env(mod, e.elt, env) for env in self._fold_comp(mod, e)}
+        if isinstance(e, ast.DictComp):
+            return {self._fold_env(mod, e.key, env): self._fold_env(mod, e.value, env) for env in self._fold_comp(mod, e)}
+        if isinstance(e, ast.Subscript) and not isinstance(e.slice, ast.Slice):
+            base, idx = self._fold(mod, e.value), self._fold(mod, e.slice)
+            try:
+                if isinstance(base, (list, tuple, str)) and isinstance(idx, int) and not isinstance(idx, bool):
+                    return base[idx]
+                if isinstance(base, dict):
+                    return base[idx]
+            except (IndexError, KeyError):
+                pass
+            raise AnalysisError(f"cannot fold {ast.unparse(e)[:60]} in {mod.name}")
+        if isinstance(e, ast.Compare) and len(e.ops) == 1:
+            a, b = self._fold(mod, e.left), self._fold(mod, e.comparators[0])
+            o = e.ops[0]
+            try:
+                if isinstance(o, ast.Eq):
+                    return a == b
+                if isinstance(o, ast.NotEq):
+                    return a != b
+                if isinstance(o, ast.In):
+                    return a in b
+                if isinstance(o, ast.NotIn):
+                    return a not in b
+            except TypeError:
+                pass
+            raise AnalysisError(f"cannot fold {ast.unparse(e)[:60]} in {mod.name}")
+        if isinstance(e, ast.UnaryOp) and isinstance(e.op, ast.Not):
+            return not self._fold(mod, e.operand)
+        if isinstance(e, ast.BoolOp):
+            vals = [self._fold(mod, v) for v in e.values]
+            out = vals[0]
+            for v in vals[1:]:
+                out = (out and v) if isinstance(e.op, ast.And) else (out or v)
+            return out
         if isinstance(e, ast.Name):
             r = self.resolve_global(mod, e.id)
             if r and r[0] == "const":
@@ -455,8 +553,36 @@ class Model:
                     return sep.join(parts)
             if fn in ("frozenset", "set", "tuple", "list") and len(e.args) == 1 and not e.keywords:
                 v = self.fold(mod, e.args[0])
+                if isinstance(v, dict):
+                    v = list(v)
                 if isinstance(v, (str, list, tuple, set, frozenset)):
                     return {"frozenset": frozenset, "set": set, "tuple": tuple, "list": list}[fn](v)
+            if fn == "zip" and e.args and not e.keywords and not any(isinstance(a, ast.Starred) for a in e.args):
+                cols = []
+                for a in e.args:
+                    v = self.fold(mod, a)
+                    if isinstance(v, dict):
+                        v = list(v)
+                    if not isinstance(v, (list, tuple, str)):
+                        raise AnalysisError(f"cannot fold {ast.unparse(e)[:60]} in {mod.name}")
+                    cols.append(v)
+                return [tuple(row) for row in zip(*cols)]
+            if fn == "dict" and len(e.args) <= 1 and not any(k.arg is None for k in e.keywords):
+                out: dict = {}
+                if e.args:
+                    v = self.fold(mod, e.args[0])
+                    if isinstance(v, dict):
+                        out.update(v)
+                    elif isinstance(v, (list, tuple)) and all(isinstance(p, (list, tuple)) and len(p) == 2 for p in v):
+                        try:
+                            out.update((p[0], p[1]) for p in v)
+                        except TypeError:
+                            raise AnalysisError(f"cannot fold {ast.unparse(e)[:60]} in {mod.name}") from None
+                    else:
+                        raise AnalysisError(f"cannot fold {ast.unparse(e)[:60]} in {mod.name}")
+                for k in e.keywords:
+                    out[k.arg] = self.fold(mod, k.value)
+                return out
         raise AnalysisError(f"cannot fold {ast.unparse(e)[:60]} in {mod.name}")
 
     @staticmethod
